@@ -13,7 +13,7 @@ TARGETS = ['C15/Props.vo', 'C15/Corr.vo']
 MODEL_TARGETS = ['C15/Corr.vo']
 PROPS_FILE = 'C15/Props.v'
 PROPS_MODULE = 'QV.C15.Props'
-CORR_IMPORTS = ['QV.C15.Model', 'QV.C15.Spec', 'QV.C15.Corr']
+CORR_IMPORTS = ['QV.C15.Model', 'QV.C15.Spec', 'QV.C15.ModelQ', 'QV.C15.Corr']
 CHECK_CORR = 'check_corr'
 CHECK_SPEC = 'check_spec'
 SHARD = 60
@@ -337,6 +337,27 @@ def gen_one(rng, kind, depth):
     raise RuntimeError('generator could not produce a case')
 
 
+FRAC_VALUES = ['1/2', '3/2', '5/2', '7/2', '-1/2', '-3/2', '5/4', '11/4', '2', '3', '1', '0', '4']
+
+
+def gen_frac(rng):
+    """one volatile repetition count, updated with dyadic non-integer (and integer-valued float) values"""
+    for _ in range(100):
+        names = rng.sample(NAMES[:4], rng.choice([1, 2, 2]))
+        e = expr_pool(rng, names)
+        used = sorted(set(e_vars(e)))
+        if not used:
+            continue
+        vals = {n: rng.choice([1, 2, 3]) for n in used}
+        if e_eval(e, env_fn(vals)) <= 0:
+            continue
+        ups = []
+        for _ in range(rng.choice([1, 2, 3])):
+            ups.append({rng.choice(used): rng.choice(FRAC_VALUES)})
+        return {'kind': 'frac', 'expr': e, 'vals': vals, 'ups': ups}
+    raise RuntimeError('generator could not produce a frac case')
+
+
 def small_templates():
     """all templates with <= 3 composite nodes over a reduced alphabet (thorough tier)"""
     exprs = [V_('n'), V_('m'), ['*', V_('n'), V_('m')], ['*', C_(2), V_('n')]]
@@ -371,6 +392,8 @@ def gen_cases(rng, tier, ctx):
         cases.append(gen_one(rng, 'tree', rng.choice([2, 3, 3, 4])))
     for i in range(n_tab):
         cases.append(gen_one(rng, 'tabor', rng.choice([2, 3, 3, 4])))
+    for i in range(60 if tier == 'quick' else 600):
+        cases.append(gen_frac(rng))
     if tier == 'thorough':
         seen = set()
         for p in small_templates():
@@ -552,7 +575,35 @@ def run_impl(case):
         return {'crash': '%s: %s' % (type(e).__name__, str(e)[:200])}
 
 
+def _fval(sv):
+    f = vlib.frac_parse(sv) if isinstance(sv, str) else sv
+    return int(f) if f.denominator == 1 and not isinstance(sv, str) else float(f)
+
+
+def _run_frac(case):
+    from qupulse.pulses import RepetitionPT
+    from qupulse.pulses.repetition_pulse_template import ParameterNotIntegerException
+    pt = RepetitionPT(_atoms()[0], e_str(case['expr']))
+    vals = dict(case['vals'])
+    prog = pt.create_program(parameters=dict(vals), volatile=set(vals))
+    rd = prog[0].repetition_definition
+    after, fresh = [], []
+    cur = dict(vals)
+    for us in case['ups']:
+        fus = {k: float(vlib.frac_parse(v)) for k, v in us.items()}
+        cur.update(fus)
+        after.append(int(rd.update_volatile_dependencies(fus)))
+        try:
+            f = pt.create_program(parameters=dict(cur), volatile=set(vals))
+            fresh.append('none' if f is None else int(f[0].repetition_count))
+        except ParameterNotIntegerException:
+            fresh.append('nonint')
+    return {'after': after, 'fresh': fresh}
+
+
 def _run(case):
+    if case['kind'] == 'frac':
+        return _run_frac(case)
     vals = dict(case['vals'])
     if case['kind'] == 'tree':
         before, prog = _tree_pipeline(case, vals)
@@ -635,6 +686,14 @@ def g_mod(m):
 def to_coq(case, obs):
     if 'crash' in obs or 'hang' in obs:
         return 'CCrash'
+    if case['kind'] == 'frac':
+        gq = lambda kv: '(%d%%N, %s)' % (NAME_ID[kv[0]], vlib.gQ(vlib.frac_parse(kv[1]) if isinstance(kv[1], str) else kv[1]))
+        return '(CFrac %s %s %s %s %s)' % (
+            e_coq(case['expr']), glist(gq, sorted(case['vals'].items())),
+            glist(lambda us: glist(gq, sorted(us.items())), case['ups']),
+            glist(gZ, obs['after']),
+            glist(lambda f: 'None' if f == 'nonint' else '(Some None)' if f == 'none' else '(Some (Some %s))' % gZ(f),
+                  obs['fresh']))
     ups = glist(g_kv, case['ups'])
     if case['kind'] == 'tree':
         pl = {'none': 'PLNone', 'cleanup': 'PLCleanup'}.get(case['pl']) or '(PLFlatten %s)' % gZ(int(case['pl'][4:]))
@@ -655,6 +714,8 @@ def _has_vol(t):
 
 
 def nontrivial(case, obs):
+    if case['kind'] == 'frac':
+        return 'after' in obs and len(set(obs['after'])) > 0 and any(f == 'nonint' for f in obs['fresh'])
     if 'before' not in obs:
         return False
     b = obs['before']
@@ -674,6 +735,12 @@ def nontrivial(case, obs):
 
 def histogram_keys(case, obs):
     keys = [case['kind']]
+    if case['kind'] == 'frac':
+        for f in obs.get('fresh', []):
+            keys.append('frac:fresh=%s' % (f if isinstance(f, str) else 'count'))
+        if 'after' not in obs:
+            keys.append('crash')
+        return keys
     if case['kind'] == 'tree':
         keys.append('pipeline:' + case['pl'])
     else:
@@ -700,6 +767,15 @@ def histogram_keys(case, obs):
 
 def classify(case, obs):
     """id of the known finding a failing case belongs to (precise predicates on the input / recorded call sites)"""
+    if case['kind'] == 'frac':
+        # some cumulative value of the count expression is not an integer
+        cur = {k: vlib.frac_parse(str(v)) for k, v in case['vals'].items()}
+        for us in case['ups']:
+            for k2, v in us.items():
+                cur[k2] = vlib.frac_parse(v)
+            if e_eval(case['expr'], env_fn(cur)).denominator != 1:
+                return 'C15-noninteger-update-rounds'
+        return None
     if 'before' not in obs:
         return None
     V = set(case['V'])
